@@ -17,7 +17,7 @@ Definition arg (f : list bytes) (i : nat) : N :=
   match parse_N (nth i f []) with Some n => n | None => 0 end.
 Definition known_ops : list bytes :=
   [B"P"; B"H"; B"G"; B"D"; B"X"; B"C"; B"A"; B"T"; B"L"; B"V"; B"t+"; B"t?"; B"t-"; B"MC"; B"MP"; B"MF"; B"MA";
-   B"MQ"; B"MY"; B"ML"; B"BL"; B"BH"; B"BV"; B"BC"; B"BD"; B"OP"; B"OG"; B"OD"; B"YP"; B"YG"; B"YD"; B"WP"; B"WG"; B"WD"].
+   B"MQ"; B"MY"; B"ML"; B"LW"; B"VW"; B"MLW"; B"MQW"; B"BL"; B"BH"; B"BV"; B"BC"; B"BD"; B"OP"; B"OG"; B"OD"; B"YP"; B"YG"; B"YD"; B"WP"; B"WG"; B"WD"].
 (* AppendObject always; CopyObject with a byte range (argument 11); TransitionObjectStorageClass of an
    explicit version (argument 4) *)
 Definition not_implemented (f : list bytes) : bool :=
